@@ -264,6 +264,9 @@ func (g *valGen) gen(t reflect.Type, depth int) reflect.Value {
 		}
 		if t.Kind() == reflect.Float32 {
 			x = float64(float32(x))
+			if !g.nonFinite && math.IsInf(x, 0) {
+				x = math.MaxFloat32
+			}
 		}
 		v.SetFloat(x)
 	case reflect.Complex64, reflect.Complex128:
